@@ -910,6 +910,7 @@ func init() {
 		Not: "That each decoder classifies each malformation correctly, NOTIFICATION code/subcode values, and the absence of malformed attributes on installed routes for all inputs are value-level and not decided.",
 		Run: func(c *Ctx) {
 			c.ruleRatchets("C06")
+			c.ruleNarrowGuard("E5.narrow-guard", []string{"pkg/packet/bgp"}, 2)
 			c.ruleErrorCodeKinds("E4.error-code-kinds", []string{"pkg/packet/bgp", "pkg/server"}, 40)
 			c.ruleNextHopValidity("E5.next-hop-validity")
 			c.ruleRFC7606()
